@@ -1,8 +1,8 @@
 CONSTANTS
-  Alphabet <- LineAlphabet
-  MaxLen = 6
+  AlphaOf <- FullAlpha
+  MaxLenOf <- Len6
   DelimSet <- AllDelims
 INIT Init
 NEXT Next
-INVARIANTS InvPartition InvSelection InvNth InvRender
+INVARIANTS InvPartition
 CHECK_DEADLOCK FALSE
